@@ -1,6 +1,7 @@
 import MidoModel.Smf
 import MidoProofs.Lemmas.Vlq
 import MidoProofs.Lemmas.SmfRt
+import MidoProofs.Lemmas.SmfSound
 /-!
   C07 — MIDI file save then load preserves every track.
 -/
@@ -233,6 +234,68 @@ theorem C07_saved_fixed_point (cs : Charset) (f : MFile) (hs : StorableFile cs f
     obtain ⟨t, ht, rfl⟩ := htr
     rw [(writeTrack_normT cs hs.charset t (hs.events t ht)).1] at hb
     exact hs.chunk t ht b hb
+
+/-- **Fixed point of load-save-load, for ARBITRARY loadable bytes.**  Take any byte string (not
+    necessarily produced by mido) that loads; if saving what was loaded succeeds (it is refused with
+    ValueError when the file holds a real-time status byte), then loading the saved bytes gives the
+    loaded file again with `end_of_track` normalised, that result is storable, saves to the very
+    same bytes and loads to itself: from the second round on nothing changes.  Hypotheses that
+    are limits of the format, not of the code: a sysex payload exactly at the reader's 1 000 000
+    byte limit and unterminated, and track chunks of 4 GiB, are excluded. -/
+theorem C07_fixed_point (cs : Charset) (hcs : cs ≠ .utf8) (b : List Nat) (hb : Bytes b) (L : LFile)
+    (hl : readFile cs false b = .ok L) (b2 : List Nat) (hw : writeFile cs L.toM = .ok b2)
+    (hsx : ∀ t ∈ L.tracks, ∀ e ∈ t, ∀ d, e.ev = .msg (.sysex d) → d.length + 1 ≤ maxMessageLength)
+    (hfit : ∀ tr ∈ L.toM.tracks, ∀ bt, writeTrack cs tr = .ok bt → bt.length < 4294967296) :
+    StorableFile cs L.toM ∧
+    (readFile cs false b2).map LFile.toM = .ok L.toM.norm ∧
+    StorableFile cs L.toM.norm ∧ writeFile cs L.toM.norm = .ok b2 := by
+  have hsound := readFile_sound cs hcs b hb L hl
+  have hbody : ∃ body, writeTracks cs L.toM.tracks = .ok body := by
+    unfold writeFile at hw
+    split at hw
+    · cases hw
+    · simp only [bind, Except.bind] at hw
+      cases ha : i16be L.toM.type with
+      | error e => rw [ha] at hw; cases hw
+      | ok a =>
+        rw [ha] at hw; simp only at hw
+        cases hb' : i16be (L.toM.tracks.length : Int) with
+        | error e => rw [hb'] at hw; cases hw
+        | ok b' =>
+          rw [hb'] at hw; simp only at hw
+          cases hc : i16be L.toM.tpb with
+          | error e => rw [hc] at hw; cases hw
+          | ok c =>
+            rw [hc] at hw; simp only at hw
+            cases hbd : writeTracks cs L.toM.tracks with
+            | error e => rw [hbd] at hw; cases hw
+            | ok body => exact ⟨body, rfl⟩
+  obtain ⟨body, hbody⟩ := hbody
+  have hs : StorableFile cs L.toM := by
+    refine ⟨hcs, ?_, hfit⟩
+    intro tr htr e he
+    obtain ⟨bt, hbt⟩ := writeTracks_mem cs _ body hbody tr htr
+    have hnr := (C07_written_is_storable cs tr bt hbt e he).2
+    simp only [LFile.toM, mem_map] at htr
+    obtain ⟨t, ht, rfl⟩ := htr
+    obtain ⟨le, hle, rfl⟩ := mem_map.mp he
+    refine ⟨sound_storable cs hcs le.ev (hsound t ht le hle) hnr (fun d hd => hsx t ht le hle d hd), le.delta, rfl⟩
+  exact ⟨hs, C07_saved_fixed_point cs L.toM hs b2 hw⟩
+
+/-- a file not written by mido (padded delta, an end_of_track in the middle, running status kept
+    across it) meets the hypotheses of `C07_fixed_point`: it loads, what was loaded can be saved,
+    and the saved bytes are shorter than the original (normalised) -/
+def fpBytes : List Nat := [77, 84, 104, 100, 0, 0, 0, 6, 0, 0, 0, 1, 0, 96, 77, 84, 114, 107, 0, 0, 0, 16,
+  0x80, 0, 0x90, 60, 64, 0, 0xff, 0x2f, 0, 5, 62, 0, 0, 0xff, 0x2f, 0]
+
+example : Bytes fpBytes ∧
+    readFile .latin1 false fpBytes = .ok ⟨0, 96, [[⟨.msg (.chan3 .note_on 0 60 64), 0⟩, ⟨.metaEv ⟨.end_of_track, []⟩, 0⟩,
+      ⟨.msg (.chan3 .note_on 0 62 0), 5⟩, ⟨.metaEv ⟨.end_of_track, []⟩, 0⟩]]⟩ ∧
+    writeFile .latin1 (LFile.toM ⟨0, 96, [[⟨.msg (.chan3 .note_on 0 60 64), 0⟩, ⟨.metaEv ⟨.end_of_track, []⟩, 0⟩,
+      ⟨.msg (.chan3 .note_on 0 62 0), 5⟩, ⟨.metaEv ⟨.end_of_track, []⟩, 0⟩]]⟩) =
+      .ok [77, 84, 104, 100, 0, 0, 0, 6, 0, 0, 0, 1, 0, 96, 77, 84, 114, 107, 0, 0, 0, 11, 0, 144, 60, 64, 5, 62,
+        0, 0, 255, 47, 0] := by
+  refine ⟨by intro b hb; revert b hb; decide, by decide +kernel, by decide +kernel⟩
 
 /-- a concrete two-track file: channel messages sharing a status byte (running status), a sysex,
     a known and an unknown meta message, an end_of_track in the middle with ticks to carry -/
